@@ -105,3 +105,23 @@ def repl_formatted(t: str) -> bool:
     p.replace("x", new, formatted=True)
     node = p._Element__element
     return done(S.plain_text(node) == exp and S.collapse_tree(node) == exp)
+
+
+def repl_formatted_tree(t0: str, t1: str) -> bool:
+    """
+    pre: len(t0) <= 2 and len(t1) <= 2 and all(c in "a x" for c in t0 + t1)
+    post: _
+    """
+    # formatted=True on a paragraph that already holds a span with a tail: every run is replaced,
+    # nothing is duplicated or lost, and the paragraph and the span are in normal form
+    from odfdo.paragraph import Span
+    new = os.environ.get("VERIF_NEW", "")
+    p = Paragraph(t0)
+    sp = Span(t1)
+    p.append(sp)
+    sp.tail = "xb"
+    n = p.replace("x", new, formatted=True)
+    exp = re.sub("x", new, t0) + re.sub("x", new, t1) + re.sub("x", new, "xb")
+    cnt = len(re.findall("x", t0)) + len(re.findall("x", t1)) + 1
+    node = p._Element__element
+    return done(n == cnt and S.plain_text(node) == exp and S.collapse_tree(node) == exp)
